@@ -2,7 +2,7 @@
    The applications of the listed builtins and operators to one value, as the interpreter performs them:
    validateType against the declared argument types, then the native code (Model/C16_Eval.v `native`),
    respectively the Operator method (`apply_bin`), iteration, indexing. *)
-From PlzV Require Import Base.Harness Model.C16_Syntax Model.C16_Ops Model.C16_Prim Model.C16_Eval Model.C16 Model.C18_Config.
+From PlzV Require Import Base.Harness Model.C16_Syntax Model.C16_Ops Model.C16_Prim Model.C16_Eval Model.C16 Model.C18_Config Model.C18_Attr.
 From PlzV Require Import Gen.C18Pins.
 
 (* ---- isinstance (builtins.go isinstance / isType; not part of the shared evaluator) ----
@@ -34,7 +34,11 @@ Definition isinstance_model (unwraps : bool) (obj : value) (tys : list str) (sin
 Inductive case :=
 | CEval (c : C16.case)
 | CCfg (imported : bool) (ops : list cfgop) (reads : list (str * cfgread * str)) (body : prog) (observed : outcome)
-| CIsInst (imported : bool) (lit : expr) (tys : list str) (single : bool) (observed : bool).
+| CIsInst (imported : bool) (lit : expr) (tys : list str) (single : bool) (observed : bool)
+| CAttr (imported : bool) (lit : expr) (path : list access) (body : prog) (observed : outcome)
+    (* D = lit (in the package, or in a subincluded file: frozen); X = D<path>; body   (Model/C18_Attr.v run_attr) *)
+| CPlugin (name : str) (fields : list pfield) (path : list access) (body : prog) (observed : outcome).
+    (* subinclude(an output of the plugin `name`); X = CONFIG.<NAME><path>; body        (Model/C18_Attr.v run_plugin) *)
     (* V = lit (in the package, or in a subincluded file: frozen); r = isinstance(V, tys) *)
 
 Definition run_isinst (fuel : nat) (imported : bool) (lit : expr) (tys : list str) (single : bool) : option bool :=
@@ -56,6 +60,8 @@ Definition check (c : case) : bool :=
   | CCfg imported ops reads body observed => outcome_eqb (run_cfg FUEL imported ops reads body) observed
   | CIsInst imported lit tys single observed =>
       match run_isinst FUEL imported lit tys single with Some b => Bool.eqb b observed | None => false end
+  | CAttr imported lit path body observed => outcome_eqb (run_attr FUEL imported lit path body) observed
+  | CPlugin name fields path body observed => outcome_eqb (run_plugin FUEL name fields path body) observed
   end.
 
 Inductive bapp :=
